@@ -458,6 +458,39 @@ pub fn c07(a: &Args) {
         }
     }
 
+    // (2b) glyph heights: the writer renders an embedded preview with the fonts of the document - every combination of the
+    //      height of font slot 0 and of another slot (shorter / equal / taller), with cells of the other page in the first and
+    //      in the LAST row and as a layer's default font page
+    if only.is_empty() || only == "rnd" {
+        let mut r = rng(seed, 777);
+        for h0 in [8u8, 14, 16] {
+            for h1 in [4u8, 8, 16, 19, 32] {
+                for variant in 0..3 {
+                    let page = [1usize, 5, 300][variant % 3];
+                    let mut buf = Buffer::new((6, 3));
+                    buf.layers.clear();
+                    buf.set_font(0, random_font(&mut r, "slot zero".to_string(), h0));
+                    buf.set_font(page, random_font(&mut r, format!("slot {page}"), h1));
+                    let mut rows: Vec<Vec<AttributedChar>> = Vec::new();
+                    for y in 0..3 {
+                        let mut row = Vec::new();
+                        for x in 0..6 {
+                            let mut at = TextAttribute::new(r.gen_range(0..16), r.gen_range(0..8));
+                            at.set_font_page(if (y == 0 && x < 2) || (y == 2 && x % 2 == variant % 2) { page } else { 0 });
+                            row.push(AttributedChar::new(char::from_u32(r.gen_range(33..127)).unwrap(), at));
+                        }
+                        rows.push(row);
+                    }
+                    let mut l = make_layer(format!("h{h0}-{h1}"), 6, 3, rows);
+                    if variant == 2 { l.default_font_page = page; }
+                    buf.layers.push(l);
+                    run_case(&mut out, &format!("fonth-{h0}-{h1}-{variant}"), "font-heights", &buf);
+                    ndocs += 1;
+                }
+            }
+        }
+    }
+
     // (3) seeded random documents
     if only.is_empty() || only == "rnd" {
         let n = a.usize("docs", if thorough { 3000 } else { 300 });
